@@ -139,6 +139,32 @@ def name_configurable(pm, cls: ClassInfo, cache: dict) -> dict[str, object]:
     return res
 
 
+def _user_order(chk):
+    """LAYOUT.dims.user_order - the order of the SAMPLE dimensions (the order in which they are numbered, stacked and, for
+    lagged / cross-set models, walked) is the order the user wrote in `dim=`; it must not follow the order in which the
+    data object happens to hold its dimensions, or transposing the data changes the row sequence.  `get_dims` returns
+    (sample dims, feature dims): the first member derives from the `sample_dims` argument alone."""
+    pm = chk.pm
+    mod = pm.modules.get("xeofs.utils.xarray_utils")
+    chk.require(mod is not None and "get_dims" in mod.functions, "xeofs/utils/xarray_utils.get_dims vanished")
+    fn = mod.functions["get_dims"]
+    ff = FuncFacts.of(fn)
+    from .common import returns_of
+    n = 0
+    for r in returns_of(fn):
+        if not (isinstance(r.value, ast.Tuple) and len(r.value.elts) == 2):
+            continue
+        n += 1
+        ps = ff.paths(r.value.elts[0], spine_only=False, follow=True)
+        from_user = any(p.atom.kind == "param" and p.atom.name == "sample_dims" for p in ps)
+        from_data = [p for p in ps if p.atom.kind == "param" and p.atom.name not in ("sample_dims",)]
+        chk.check(from_user and not from_data, "LAYOUT.dims.user_order", fn, r, construct="get_dims returns the sample dimensions in the order given by the user",
+                  why=("the sample dimensions that get_dims reports depend on the data object (" + ", ".join(sorted({repr(p)[:70] for p in from_data})[:2]) +
+                       "): their order follows the data's own dimension order, so transposing the data (or giving cross-set fields in different layouts) changes the order of "
+                       "the stacked samples - lagged models see another series, cross-set fields are paired row by row wrongly") if from_data else "the returned sample dimensions do not derive from the sample_dims argument")
+    chk.require(n >= 1, "get_dims: no (sample_dims, feature_dims) return found")
+
+
 def check(chk):
     # list items are aligned by sample LABEL when concatenated, whatever order each item stores its samples in (shared with C02's concatenator rule)
     from . import c02 as _c02
@@ -158,6 +184,7 @@ def check(chk):
     _c02._dataset_layout(_RL(chk, "MIRROR.state.stack", "LAYOUT.stack"), "MIRROR.state.stack.dataset_layout")
     _c02._renamer_by_role(_RL(chk, "MIRROR.state.renamer", "LAYOUT.renamer"), "MIRROR.state.renamer.by_role")
     pm = chk.pm
+    _user_order(chk)
     concrete = pm.concrete_models() + pm.exported_classes("preprocessing")
     cfg_cache: dict = {}
 
